@@ -31,6 +31,7 @@ META = {
         "QVerif.Cvar.operator_alpha_one",
         "QVerif.Cvar.bitstring_alpha_one",
         "QVerif.Cvar.near_one_operator",
+        "QVerif.Cvar.near_one_bitstring",
         "QVerif.Cvar.greedy_le_fill",
     ],
     "level": "proof",
@@ -39,12 +40,13 @@ META = {
     "and tolerance_bound: the code's loop with its isclose early exit stays within (1e-8 + 1e-5 alpha) max|v| / alpha of the exact value (alpha not "
     "isclose to 1). For the isclose(alpha, 1) branch: alpha = 1 returns the plain expectation exactly on the operator path (operator_alpha_one) and within (1e-8 + 1e-5) max|v| "
     "on the bitstring path, whose loop runs in dictionary order (bitstring_alpha_one); for alpha within 1e-5 of 1 the operator path returns the plain expectation, "
-    "which differs from the exact value by at most 2 (1 - alpha) max|v| (near_one_operator, via greedy_lipschitz). The bitstring path for alpha strictly "
-    "between 1 - 1e-5 and 1 (unsorted fill) is covered by the correspondence and the oracle only. Exact rational model tied to the float implementation by a "
+    "which differs from the exact value by at most 2 (1 - alpha) max|v| (near_one_operator, via greedy_lipschitz). On the bitstring path for alpha strictly "
+    "between 1 - 1e-5 and 1 the loop fills mass alpha in dictionary order WITHOUT sorting; the result is still within ((1e-8 + 1e-5 alpha) + 2 (1 - alpha)) max|v| / alpha "
+    "of the exact value whatever the order (near_one_bitstring) - so all four branches of the two public functions have a theorem. Exact rational model tied to the float implementation by a "
     "differential correspondence.",
     "level_note": "Trusted: Lean kernel + standard axioms; Model/Cvar.lean hand-written, tied by sampled correspondence (1e-9 relative float tolerance); "
     "numpy.isclose = |a-b| <= 1e-8 + 1e-5|b|; Qiskit's QuasiDistribution / binary_probabilities / sampled_expectation_value / _evaluate_sparsepauli "
-    "as documented. Not a theorem: the bitstring path for alpha strictly inside (1 - 1.001e-5, 1) (unsorted loop).",
+    "as documented.",
     "rule": "cases = shot-count distributions on 1-5 bits (shots in {1,2,3,7,10,64,100,1000,1024,10^6}; single outcome; ties) x diagonal SparsePauliOp with "
     "dyadic coefficients and the matching bitstring function x alpha in {1, 1/2, 1/4, k/shots, k/shots + delta (delta 1e-9..1e-5), 0.99999, 1-1e-6, "
     "random, invalid}; both public functions compared with the model (1e-9 relative) and with the exact Fraction CVaR within the documented 1e-5 "
